@@ -121,16 +121,8 @@ Definition texts_eqb (a b : list text) : bool :=
 Definition call_eqb (a b : Z * nat * list text) : bool :=
   match a, b with (s1, d1, l1), (s2, d2, l2) => (s1 =? s2) && (d1 =? d2)%nat && texts_eqb l1 l2 end.
 
-Fixpoint drop_seg (seg l : list (Z * nat * list text)) : option (list (Z * nat * list text)) :=
-  match seg with
-  | [] => Some l
-  | s :: seg' => match l with
-                 | x :: l' => if call_eqb s x then drop_seg seg' l' else None
-                 | [] => None
-                 end
-  end.
-
-(* is the observed trace the script's own trace with variant segments inserted? *)
+(* is the observed trace the script's own trace with variant segments inserted - at any point, also inside another
+   segment (a variant whose body calls a function with a new signature makes that function's variant on the spot)? *)
 Fixpoint explain (fuel : nat) (segs : list (list (Z * nat * list text)))
          (own real : list (Z * nat * list text)) : bool :=
   match fuel with
@@ -145,10 +137,7 @@ Fixpoint explain (fuel : nat) (segs : list (list (Z * nat * list text)))
        end)
       || existsb (fun seg => match seg with
                              | [] => false
-                             | _ => match drop_seg seg real with
-                                    | Some rest => explain f segs own rest
-                                    | None => false
-                                    end
+                             | s :: seg' => call_eqb s r && explain f segs (seg' ++ own) real'
                              end) segs
     end
   end.
